@@ -202,6 +202,8 @@ func checker(a map[string]any) boltz.FieldChecker {
 			f = schema.KNick
 		case "boss":
 			f = schema.KBoss
+		case "grade":
+			f = schema.KGradeInChecker
 		}
 		m[f] = struct{}{}
 	}
@@ -478,6 +480,13 @@ func stripPayload(evs []string) []string {
 func (r *Runner) Run(steps []Step) bool {
 	env := r.Env
 	i := 0
+	noActions := true
+	for k := range steps {
+		if op := steps[k].op(); op == "commitAction" || op == "preCommit" {
+			noActions = false
+		}
+	}
+	var shared boltz.MutateContext
 	for i < len(steps) {
 		b := &steps[i]
 		if b.op() != "begin" {
@@ -635,6 +644,14 @@ func (r *Runner) Run(steps []Step) bool {
 		}
 
 		var mctx boltz.MutateContext = boltz.NewMutateContext(context.Background())
+		if noActions && r.Idx%2 == 1 && b.args()["sys"] != true {
+			// an application may keep one context and hand it to one transaction after the other (nothing is registered on it here):
+			// what a rolled-back transaction queued must not surface in a later one
+			if shared == nil {
+				shared = mctx
+			}
+			mctx = shared
+		}
 		if b.args()["sys"] == true {
 			mctx = mctx.GetSystemContext()
 		}
@@ -658,6 +675,8 @@ func (r *Runner) Run(steps []Step) bool {
 		var txErr error
 		if str(b.args()["kind"]) == "batch" {
 			txErr = env.Db.Batch(mctx, fn)
+		} else if mctx != shared && b.args()["sys"] != true && !preRegistered && !actRegistered && (i+r.Idx)%4 == 3 {
+			txErr = env.Db.Update(nil, fn) // no context of the caller's: the Db makes one
 		} else {
 			txErr = env.Db.Update(mctx, fn)
 		}
